@@ -24,6 +24,7 @@ def run(ck, fb):
     r03c(ck, fb)
     r03d(ck, fb)
     r03e(ck, fb)
+    r03f(ck, fb)
 
 
 def r03a(ck, fb):
@@ -208,3 +209,26 @@ def r03e(ck, fb):
             vg = util.variant_guards(h, st[0].bb)
             ck.require(any(v == 'StripLogToIndex' for (_, v) in vg), 'R03e', 'handle_request:strip-arm', st[0].where(),
                        'strip_log_to is called outside the StripLogToIndex arm (%s)' % sorted(vg))
+
+
+def r03f(ck, fb):
+    ck.rule('R03f', 'cursor fields are derived from current values: in LogInnerManager::{strip_log_to, write} no assignment self.G = e uses a '
+                    'read of another cursor field self.F that is itself replaced later in the same call (e.g. current_index_count computed from the '
+                    'pre-truncation msg_count)')
+    for fn in ('strip_log_to', 'write'):
+        b = ck.main(LIM + fn, 'R03f')
+        if not b:
+            continue
+        st = util.stale_self_reads(b)
+        ck.require(not st, 'R03f', '%s:no-stale-cursor-reads' % fn, b.where(st[0][2]) if st else b.where(),
+                   '; '.join('self.%s is computed from self.%s as it was before self.%s is updated (line %s before line %s)' %
+                             (g, f, f, b.blocks[rb]['t'].get('ln'), b.blocks[wb]['t'].get('ln')) for (g, f, rb, wb) in st[:3]) +
+                   ': after a truncation the next index entry is emitted at the wrong record and the index area no longer matches the data on reopen')
+    # current_index_count in strip_log_to comes from the cut position or the recount, not from a constant
+    b = fb.main(LIM + 'strip_log_to') if fb.has(LIM + 'strip_log_to') else None
+    if b:
+        t = Taint(b, call_src=lambda t: (t.get('f') or {}).get('d', '').endswith('get_file_index_by_log_index') or (t.get('f') or {}).get('d', '').endswith('move_to_index_by_count'))
+        for (o, f, bb, stt) in b.field_writes():
+            if f == 'current_index_count':
+                ck.require(any(t.op_tainted(x) for x in rv_operands(stt['rv'])), 'R03f', 'strip_log_to:current_index_count<-cut', b.where(bb),
+                           'current_index_count is not derived from the cut position / the recount')
